@@ -91,7 +91,7 @@ type ErrV struct {
 
 // LocV is *time.Location.
 type LocV struct {
-	Kind int // 0 nil, 1 UTC, 2 Local
+	Kind int // 0 nil, 1 UTC, 2 Local, 3 the controller zone declared with verifControllerZoneAt (a zone other than the process zone)
 }
 
 // TimeV is the civil-record model of time.Time (DESIGN 4.1).  All fields are
@@ -100,6 +100,7 @@ type TimeV struct {
 	Y, M, D, H, Mi, S, Ns *Term
 	UTC                   *Term // Bool: the value is in UTC (true) or in time.Local (false)
 	Year0                 bool // result of time.Parse without a date (year 0, Jan 1)
+	Other                 bool // the value is in the controller zone (LocV kind 3): UTC is false, Off/Bef/Rel are set
 	Inst                  *Term // abstract instant (BV64 nanoseconds on an arbitrary monotonic axis); civil fields unused when set
 	Off                   *Term // zone view Z2: the offset in effect at this time's instant (nil: the zone's fixed offset)
 	Bef                   *Term // zone view Z2: the instant lies before the zone's transition (Bool; set with Off)
@@ -500,7 +501,7 @@ func (e *Engine) mergeVal(g *Term, a, b Value) (Value, bool) {
 		return x, true
 	case TimeV:
 		y, ok := b.(TimeV)
-		if !ok || x.Year0 != y.Year0 || (x.Inst == nil) != (y.Inst == nil) || (x.Off == nil) != (y.Off == nil) {
+		if !ok || x.Year0 != y.Year0 || x.Other != y.Other || (x.Inst == nil) != (y.Inst == nil) || (x.Off == nil) != (y.Off == nil) {
 			return nil, false
 		}
 		c := e.tc
@@ -521,7 +522,7 @@ func (e *Engine) mergeVal(g *Term, a, b Value) (Value, bool) {
 			return x, true
 		}
 		return TimeV{Y: c.Ite(g, x.Y, y.Y), M: c.Ite(g, x.M, y.M), D: c.Ite(g, x.D, y.D), H: c.Ite(g, x.H, y.H),
-			Mi: c.Ite(g, x.Mi, y.Mi), S: c.Ite(g, x.S, y.S), Ns: c.Ite(g, x.Ns, y.Ns), UTC: c.Ite(g, x.UTC, y.UTC), Year0: x.Year0, Off: off, Bef: bef, Rel: rel}, true
+			Mi: c.Ite(g, x.Mi, y.Mi), S: c.Ite(g, x.S, y.S), Ns: c.Ite(g, x.Ns, y.Ns), UTC: c.Ite(g, x.UTC, y.UTC), Year0: x.Year0, Other: x.Other, Off: off, Bef: bef, Rel: rel}, true
 	case RegexpV:
 		y, ok := b.(RegexpV)
 		if !ok || x.Pat != y.Pat {
